@@ -22,7 +22,9 @@ def clock(E, name='clock'):
             ip.ctx.assume(t >= last)
         ip.ctx.assume(t >= 0)
         ip.state.ghost['clock_last'] = t
-        ip.state.ghost.setdefault('clock_reads', []).append(t)
+        reads = ip.state.ghost.setdefault('clock_reads', [])
+        ip.ctx.inputs['__clock__%d' % len(reads)] = Sym(t, 'real')
+        reads.append(t)
         return Sym(t, 'real')
     return E.opaque(name, effect=effect)
 
